@@ -409,10 +409,8 @@ func ApplyEdits(r *vh.Rand, b *Bundle, pkg string, n int) []EditRec {
 				pfx = strcase.ToScreamingSnake(site.name) + "_"
 			}
 			o := vh.Pick(r, optWords) + fmt.Sprint(r.Intn(50))
-			// (to an enum WITHOUT options such an option would be the first one = the zero value:
-			// the known finding, replayed by the hand-written pair of EditCorpus only)
 			switch k := r.Intn(100); {
-			case k < 20 && len(site.e.Opts) > 0:
+			case k < 20:
 				o = vh.Pick(r, optWords) + "_UNSPECIFIED" // ends like the zero value, is not the zero value
 			case k < 30:
 				o = pfx + o // spelled with the prefix already on
@@ -433,10 +431,12 @@ func ApplyEdits(r *vh.Rand, b *Bundle, pkg string, n int) []EditRec {
 			}
 			note := ""
 			if len(site.e.Opts) == 0 {
-				if strings.HasSuffix(o, "UNSPECIFIED") {
-					continue
-				}
 				note = "to_enum_without_options"
+				if strings.HasSuffix(o, "UNSPECIFIED") {
+					// the recorded finding: this option becomes the first one = the zero value (the model
+					// applies the edit as it is; C13_full excludes it: J5sEdit.enum_append_ok)
+					note = "known_class_unspecified_to_enum_without_options"
+				}
 			}
 			site.e.Opts = append(site.e.Opts, o)
 			recs = append(recs, EditRec{"option", site.desc, o, site.edit(o), note})
